@@ -201,6 +201,10 @@ fn translate_select_pipeline(
 
     let (fetch, limit) = if ctx.dialect.use_fetch() {
         (limit.map(|l| fetch_of_i64(l, ctx)), None)
+    } else if limit.is_none() && offset.is_some() && ctx.dialect.offset_requires_limit() {
+        // a negative LIMIT means "no upper bound"
+        let unbounded = sql_ast::Value::Number("-1".to_string(), false);
+        (None, Some(sql_ast::Expr::Value(unbounded.into())))
     } else {
         (None, limit.map(expr_of_i64))
     };
